@@ -5,6 +5,7 @@ import Driver.Outline
 import Driver.Fault
 import Driver.Savable
 import Driver.Futures
+import Driver.Launcher
 
 /-- `pmodel <component>`: line-protocol driver over the executable model definitions. -/
 def main (args : List String) : IO UInt32 := do
@@ -16,4 +17,5 @@ def main (args : List String) : IO UInt32 := do
   | ["fault"] => DrvFault.main; return 0
   | ["savable"] => DrvSavable.main; return 0
   | ["futures"] => DrvFutures.main; return 0
-  | _ => IO.eprintln "usage: pmodel <expose|fault|futures|outline|pm|ports|savable>"; return 2
+  | ["launcher"] => DrvLauncher.main; return 0
+  | _ => IO.eprintln "usage: pmodel <expose|fault|futures|launcher|outline|pm|ports|savable>"; return 2
